@@ -44,6 +44,9 @@ type SchedCase struct {
 	// call; the remaining incremental builds follow between the earlier call and the call
 	// under test (the builder is rebuilt between two executions on an engine that ran it).
 	PriorBuilds int `json:"prior_builds,omitempty"`
+	// FreshTag: the call under test gets a new stop-tag object (injected under the same name
+	// on the same data context) instead of the reset object of the earlier call
+	FreshTag bool `json:"fresh_tag,omitempty"`
 }
 
 // genPrior draws, in a quarter of the cases, an earlier call of any execute method.
@@ -73,6 +76,7 @@ func genPrior(t *rapid.T, c *SchedCase) {
 		c.PriorBuilds = uni(t, "prior_builds", 1, len(c.Builds)-1)
 	}
 	c.Prior = &call
+	c.FreshTag = rapid.Bool().Draw(t, "fresh_tag")
 	for i, r := range c.Rules {
 		if pct(t, fmt.Sprintf("prior_fail%d", i), 30) {
 			c.PriorFails = append(c.PriorFails, r.Name)
@@ -757,7 +761,16 @@ func checkSched(x *Ctx, c *SchedCase) (*models.Input, bool) {
 			}
 		}
 		env.log.Reset()
-		env.tag.StopTag = false
+		if c.FreshTag {
+			// the second request brings its own stop-tag object under the same name
+			x.Class("second-call-with-a-fresh-stop-tag-object-on-the-same-data-context")
+			env.tag = &engine.Stag{}
+			if tg.pool == nil {
+				tg.rb.Dc.Add("stag", env.tag)
+			}
+		} else {
+			env.tag.StopTag = false
+		}
 		env.gates.Reopen()
 	}
 	gates := c.Gates
